@@ -220,22 +220,7 @@ def run_worker(ctx):
         oc = overcommit(svc, dump(svc.dbpath))
         d = dump(svc.dbpath)
         trace = []
-        for _ in range(per_state):
-            try:
-                valid = valid_request(data.draw, d)
-            except (OverflowError, ValueError, ZeroDivisionError) as e:
-                # extreme but accepted stored values (e.g. a ratio of 3e38)
-                # can defeat the harness's own amount arithmetic: use a read
-                stats.count('generator fell back to a read (%s)'
-                            % type(e).__name__)
-                valid = gen.read(data.draw, d, (1, 39))
-            if data.draw(st.integers(0, 6)) == 0:
-                # the builders' own single-defect variants (unknown provider
-                # or class, missing inventory, stale generation ...) are
-                # inputs too: send some of them as they are
-                req, labels = valid, ['unmutated']
-            else:
-                req, labels = fuzz.mutate(data.draw, valid)
+        def one(req, labels, valid, d, trace):
             cap.last = None
             try:
                 resp = machine.execute(svc, _decode_raw(req))
@@ -243,13 +228,16 @@ def run_worker(ctx):
                 # the harness could not even build the request (e.g. a path
                 # webob refuses): not a case
                 stats.count('unbuildable request (%s)' % type(e).__name__)
-                continue
+                return d
             after = dump(svc.dbpath)
             stats.evaluations += 1
             trace.append(req)
             stats.count('%s -> %s' % (valid['op'], resp.status))
             for lb in labels:
                 stats.count('mutation ' + lb)
+            if 'query:list-shape-added' in labels:
+                stats.count('separator-only list parameter added to %s -> %s'
+                            % (valid['op'], resp.status))
             handled = resp.status not in (405, 406) and not (
                 resp.status == 404 and resp.json and 'The resource could not '
                 'be found' in json.dumps(resp.json) and
@@ -286,7 +274,33 @@ def run_worker(ctx):
                     if old is None or len(json.dumps(rec['replay'])) < \
                             len(json.dumps(old['replay'])):
                         buckets[key] = rec
-            d = after
+            return after
+
+        for _ in range(per_state):
+            try:
+                valid = valid_request(data.draw, d)
+            except (OverflowError, ValueError, ZeroDivisionError) as e:
+                # extreme but accepted stored values (e.g. a ratio of 3e38)
+                # can defeat the harness's own amount arithmetic: use a read
+                stats.count('generator fell back to a read (%s)'
+                            % type(e).__name__)
+                valid = gen.read(data.draw, d, (1, 39))
+            if data.draw(st.integers(0, 6)) == 0:
+                # the builders' own single-defect variants (unknown provider
+                # or class, missing inventory, stale generation ...) are
+                # inputs too: send some of them as they are
+                todo = [(valid, ['unmutated'])]
+            else:
+                todo = [fuzz.mutate(data.draw, valid)]
+            if valid['op'] in ('candidates', 'listing') and \
+                    data.draw(st.integers(0, 9)) == 0:
+                # metamorphic sweep: the otherwise valid query plus ONE
+                # list-valued parameter consisting of separators / blanks
+                # only must be refused (or ignored), never a server error
+                todo += [(r, ['list-shape-sweep'])
+                         for r in fuzz.list_shape_variants(valid)]
+            for req, labels in todo:
+                d = one(req, labels, valid, d, trace)
 
     test = given(st.data())(body)
     test = hypothesis.seed(ctx.seed)(test)
